@@ -11,7 +11,7 @@
 From Coq Require Import ZArith List Bool Arith Lia.
 From SP Require Import Design.Flat Design.Layout Design.Sem Comb.CombModel Comb.CombSpec Random.Enum Random.Frag
   Random.FragSem Random.RunLemmas Random.FragPerm Random.Frag0Enum Random.Frag0Decode Random.Frag0Sem Random.Frag0Valid
-  Random.Frag0Keys Random.Frag0Inj Random.Frag0Complete Random.Frag1Cons Random.Frag2Cross Random.Implied.
+  Random.Frag0Fill Random.Frag0Keys Random.Frag0Inj Random.Frag0Complete Random.Frag1Cons Random.Frag2Cross Random.Implied.
 From SP Require Comb.PermProofs Encode.CodeSem.
 Import ListNotations.
 Open Scope nat_scope.
@@ -60,9 +60,9 @@ Proof.
 Qed.
 
 Lemma f2_decode_key k : key_ok fb k ->
-  exists r, decode_key fb k = Some r /\ forall g, row_of_run r g = decoded_row fb k g.
+  exists r, decode_key fb k = Some r /\ forall g, row_of_run r g = cand_row fb k g.
 Proof.
-  intros Hk. destruct (decode_f0 fb HF m lm cn lcn HM k Hk) as [r [Hd Hrow]].
+  intros Hk. destruct (decode_full fb HF m lm cn lcn HM k Hk) as [r [Hd Hrow]].
   exists r. split; [|exact Hrow]. unfold decode_key. rewrite Hen, Hd. reflexivity.
 Qed.
 
@@ -76,14 +76,14 @@ Qed.
 
 (** the rejection test on the candidate of an in-range key decides validity *)
 (** the rows of the factors of [act_design] in the whole sequence of a candidate *)
-Lemma cand_act_row k r g : key_ok fb k -> (forall g, row_of_run r g = decoded_row fb k g) -> In g (fl_act fb) ->
-  nth g (cand_seq fb r) [] = decoded_row fb k g.
+Lemma cand_act_row k r g : key_ok fb k -> (forall g, row_of_run r g = cand_row fb k g) -> In g (fl_act fb) ->
+  nth g (cand_seq fb r) [] = cand_row fb k g.
 Proof.
   intros Hk Hrow Ha. unfold cand_seq. rewrite (fill_act_row fb HF Hq k Hk r Hrow g Ha).
   rewrite tseq_nth by (apply (act_lt fb HF); exact Ha). apply Hrow.
 Qed.
 
-Lemma f2_accepts_valid k r : key_ok fb k -> (forall g, row_of_run r g = decoded_row fb k g) ->
+Lemma f2_accepts_valid k r : key_ok fb k -> (forall g, row_of_run r g = cand_row fb k g) ->
   accepts fb r = valid_b S0 (cand_seq fb r).
 Proof.
   intros Hk Hrow. unfold cand_seq. rewrite (f0_valid_base fb HF Hq k Hk r Hrow).
@@ -91,9 +91,9 @@ Proof.
   destruct (f0_trials fb (f0_unpack fb HF)) as [HT | [Hnr Hone]].
   - assert (Hcells : forall g, In g (fl_act fb) -> exists row, rlookup r g = Some row /\ length row = fl_trials fb /\
               Forall (fun cell => exists l, cell = Some l /\ l < nlevels fb g /\
-                                            (~ In g (f0_ubs fb) -> ~ In (FExclude g l) (fl_constraints fb))) row).
-    { intros g Hg. pose proof (decoded_row_length fb HF Hq k g Hk Hg) as Hl.
-      pose proof (decoded_row_cells fb HF Hq k g Hk Hg) as Hc. rewrite <- Hrow in Hl, Hc.
+                                            (has_derived fb = false -> ~ In (FExclude g l) (fl_constraints fb))) row).
+    { intros g Hg. pose proof (cand_row_length fb HF Hq k g Hk Hg) as Hl.
+      pose proof (cand_row_cells fb HF Hq k g Hk Hg) as Hc. rewrite <- Hrow in Hl, Hc.
       unfold row_of_run in Hl, Hc. destruct (rlookup r g) as [row|]; [exists row; auto | cbn in Hl; lia]. }
     rewrite (f2_violated fb HF m lm cn lcn r Hcells); [rewrite negb_involutive; reflexivity|].
     intros Hk1. destruct (has_derived fb) eqn:Ehd; [|reflexivity].
@@ -139,7 +139,9 @@ Proof.
   destruct (f2_decode_key k1 Hk1) as [r1 [Hd1 Hr1]]. destruct (f2_decode_key k2 Hk2) as [r2 [Hd2 Hr2]].
   rewrite Hd1 in D1. rewrite Hd2 in D2. inversion D1; inversion D2; subst c1 c2.
   apply (f0_decode_inj fb HF Hq k1 k2 Hk1 Hk2). intros g Hg.
-  rewrite <- (cand_act_row k1 r1 g Hk1 Hr1 Hg), <- (cand_act_row k2 r2 g Hk2 Hr2 Hg), E. reflexivity.
+  pose proof (proj1 (proj1 (K_In fb HF Hq g) Hg)) as Ha.
+  rewrite <- (cand_row_K fb HF Hq k1 g (K_not_ucd fb HF Hq g Hg)), <- (cand_row_K fb HF Hq k2 g (K_not_ucd fb HF Hq g Hg)).
+  rewrite <- (cand_act_row k1 r1 g Hk1 Hr1 Ha), <- (cand_act_row k2 r2 g Hk2 Hr2 Ha), E. reflexivity.
 Qed.
 
 Lemma f2m_keys_nodup : NoDup (keys_of fb).
@@ -263,7 +265,12 @@ Proof.
   unfold constraint_ok, CodeSem.mk_c. cbn [k_kind k_factor k_level].
   rewrite tseq_nth by (apply (act_lt fb HF); exact Hf). rewrite Hrow. apply Nat.eqb_eq.
   apply orb_true_iff in Hnd. destruct Hnd as [Hnd | Hnx].
-  - apply negb_true_iff in Hnd. apply (decoded_row_not_excluded fb HF Hq k f l Hk Hf); [|exact Hx].
+  - apply negb_true_iff in Hnd.
+    assert (HK : In f (the_crossing fb ++ f0_ubs fb ++ f0_ubi fb)).
+    { apply (K_In fb HF Hq). split; [exact Hf|]. right. destruct (is_derived fb f) eqn:Ed; [|reflexivity]. exfalso.
+      unfold has_derived in Hnd. assert (existsb (is_derived fb) (fl_act fb) = true) by (apply existsb_exists; exists f; split; assumption). congruence. }
+    rewrite (cand_row_K fb HF Hq k f (K_not_ucd fb HF Hq f HK)).
+    apply (decoded_row_not_excluded fb HF Hq k f l Hk HK); [|exact Hx].
     destruct (f0_no_derived_sf fb HF Hnd) as (_ & _ & Hubs & _). rewrite Hubs. intros [].
   - rewrite forallb_forall in Hnx. specialize (Hnx _ Hx). discriminate.
 Qed.
@@ -318,7 +325,7 @@ Proof.
   destruct f2_memos_total as (m & lm & cn & lcn & HM & Hen & Hcn). exists (f0_enum fb m lm cn lcn), (f0_keys fb).
   split; [exact Hen|]. split; [apply (all_keys_f0 fb HF m lm cn lcn HM)|].
   intros k Hk. apply (f0_keys_In fb HF m lm cn lcn HM) in Hk.
-  destruct (decode_f0 fb HF m lm cn lcn HM k Hk) as [r [Hd Hrow]]. exists r.
+  destruct (decode_full fb HF m lm cn lcn HM k Hk) as [r [Hd Hrow]]. exists r.
   pose proof (f2_accepts_valid fb HF m lm cn lcn HM Hen Hcn k r Hk Hrow) as Ha. unfold accepts in Ha. rewrite Hen in Ha.
   destruct (are_constraints_violated fb (f0_enum fb m lm cn lcn) r) as [v|e] eqn:Ev.
   - exists v. split; [exact Hd | reflexivity].
@@ -327,9 +334,9 @@ Proof.
     destruct (f0_trials fb (f0_unpack fb HF)) as [HT | [Hnr Hone]].
     + assert (Hcells : forall g, In g (fl_act fb) -> exists row, rlookup r g = Some row /\ length row = fl_trials fb /\
                 Forall (fun cell => exists l, cell = Some l /\ l < nlevels fb g /\
-                                              (~ In g (f0_ubs fb) -> ~ In (FExclude g l) (fl_constraints fb))) row).
-      { intros g Hg. pose proof (decoded_row_length fb HF Hq k g Hk Hg) as Hl.
-        pose proof (decoded_row_cells fb HF Hq k g Hk Hg) as Hc. rewrite <- Hrow in Hl, Hc.
+                                              (has_derived fb = false -> ~ In (FExclude g l) (fl_constraints fb))) row).
+      { intros g Hg. pose proof (cand_row_length fb HF Hq k g Hk Hg) as Hl.
+        pose proof (cand_row_cells fb HF Hq k g Hk Hg) as Hc. rewrite <- Hrow in Hl, Hc.
         unfold row_of_run in Hl, Hc. destruct (rlookup r g) as [row|]; [exists row; auto | cbn in Hl; lia]. }
       rewrite (f2_violated fb HF m lm cn lcn r Hcells) in Ev; [discriminate|].
       intros Hk1. destruct (has_derived fb) eqn:Ehd; [|reflexivity].
